@@ -12,7 +12,7 @@ const tickNanos = int64(1) << 30 // span of the timer wheel's finest level
 
 // Mismatch is one disagreement between the cache and the reference model.
 type Mismatch struct {
-	Class     string // ret | expired | event | overflow | bound | load | refresh | deadline | sweep | stats | calc | views
+	Class     string // ret | expired | event | unreported | overflow | early | bound | load | refresh | deadline | sweep | stats | calc | views
 	Detail    string
 	OnExpired bool // the operation was applied to a key whose entry had expired but was not swept yet
 }
@@ -778,7 +778,23 @@ func (m *Model) end() {
 			m.unnotified = append(m.unnotified[:found], m.unnotified[found+1:]...)
 		}
 	} else if !sameEvents(m.atomics, m.deletions) {
-		m.fail("event", "OnAtomicDeletion saw %v but OnDeletion saw %v", m.atomics, m.deletions)
+		// an Expiration removal whose notification is missing is the C13 situation too
+		class := "event"
+		for _, a := range m.atomics {
+			if otter.DeletionCause(a.Sub) != otter.CauseExpiration {
+				continue
+			}
+			delivered := false
+			for _, d := range m.deletions {
+				if d.Key == a.Key && d.Val == a.Val && d.Sub == a.Sub {
+					delivered = true
+				}
+			}
+			if !delivered {
+				class = "unreported"
+			}
+		}
+		m.fail(class, "OnAtomicDeletion saw %v but OnDeletion saw %v", m.atomics, m.deletions)
 		return
 	}
 	// Eviction statistics: every Overflow removal is counted with its weight; nothing but
